@@ -424,6 +424,21 @@ func newHist(fd, uSpec, bSpec string) *hist {
 			panic("SetVarName: " + err.Error())
 		}
 	}
+	// requests that are REFUSED leave nothing behind (round 10, C15-R10: a refused binfield.SetVarName("0") left a parser
+	// compiled for the refused name): every history starts with refused renames of the field and of the univariate ring;
+	// the model's setters return the unchanged name on refusal (Props/C17Names.lean)
+	if bf, ok := h.fields[0].(*binfield.Field); ok {
+		for _, bad := range []string{"0", "1", " 0 ", "", " \t"} {
+			if err := bf.SetVarName(bad); err == nil {
+				panic("binfield.SetVarName accepted the name " + strconv.Quote(bad))
+			}
+		}
+	}
+	for _, bad := range []string{"", " \t "} {
+		if err := h.ur[0].SetVarName(bad); err == nil {
+			panic("univariate SetVarName accepted the name " + strconv.Quote(bad))
+		}
+	}
 	return h
 }
 
